@@ -267,19 +267,40 @@ class _OneofRun:
         kwargs = {}
         self._reset()
         desc = []
+        listed: Dict[str, List[Tuple[Optional[str], Any]]] = {g: [] for g in self.groups}
         for g, mems in self.groups.items():
             k = t.draw(len(mems) + 1, "ctor-member")
             if k:
                 mem = mems[k - 1]
                 v = t.draw(len(mem.variants), "variant")
                 kwargs[mem.name] = mem.variants[v][0]()
-                self._select(mem, mem.variants[v][0]())
+                listed[g].append((mem.name, mem.variants[v][0]()))
                 desc.append(f"{mem.name}=#{v}")
+                if len(mems) > 1 and t.draw(6, "ctor-second-member") == 5:
+                    # two members of one group in one constructor call: which of them is "set last" is not
+                    # defined (keyword order? declaration order?), so either may be selected - or the call
+                    # rejected; but exclusivity holds whatever was picked
+                    mem2 = t.choice([m2 for m2 in mems if m2 is not mem], "ctor-member2")
+                    v2 = t.draw(len(mem2.variants), "variant")
+                    kwargs[mem2.name] = mem2.variants[v2][0]()
+                    listed[g].append((mem2.name, mem2.variants[v2][0]()))
+                    desc.append(f"{mem2.name}=#{v2}")
+                    self.stats["probe:constructor-given-two-members-of-a-group"] += 1
         for name, variants in self.plain:
             if t.draw(3, "ctor-plain") == 2:
                 kwargs[name] = variants[0][0]()
-        self.m = self.cls(**kwargs)
-        return f"construct({', '.join(desc)})"
+        what = f"construct({', '.join(desc)})"
+        try:
+            self.m = self.cls(**kwargs)
+        except Exception as e:  # noqa: BLE001
+            if not any(len(v) >= 2 for v in listed.values()) or _harness_origin(e):
+                raise
+            self.stats["probe:constructor-rejected-two-members-of-a-group"] += 1
+            self.m = self.cls()
+            return what + f" -> raised {type(e).__name__}; fresh empty object instead"
+        for g in self.groups:
+            self._adopt(g, listed[g] or [(None, None)], what)
+        return what
 
     def op_set_member(self):
         mem, k = self._draw_member_variant()
@@ -348,7 +369,7 @@ class _OneofRun:
         form = t.draw(3, "dict-form")      # 0 class form, 1 instance form on a fresh object, 2 instance form on the live object
         d: Dict[str, Any] = {}
         picked: List[Tuple[Member, int]] = []
-        per_group_limit = 1 if form != 2 else 3
+        per_group_limit = 1 if (form != 2 and t.draw(4, "class-form-several?") != 3) else 3
         for g, mems in self.groups.items():
             for _ in range(t.draw(per_group_limit + 1, "dict-n")):
                 mem = t.choice(mems, "dict-member")
@@ -690,7 +711,8 @@ class OneofSim(Simulator):
                        "__copy__, __deepcopy__, __reduce__), which_one_of"]
     components_stub = ["streams handed to load() (EIO / EOF injection)", "independent wire writer/parser (crafted inputs, O3)"]
     assumptions = ["a message-typed member never occurs twice in one crafted payload (merge semantics are a C01/C02 matter)",
-                   "a constructor call / class-form from_dict names at most one member per group (no defined 'last')",
+                   "a constructor call / a dict naming two members of one group may select either of them or raise (no defined "
+                   "'last'); exclusivity is judged on whatever was selected",
                    "single actor: there is no interleaving to explore"]
     tiers = {
         "quick": dict(runs=24000, chunk=250, wall_cap=300, det_sample=150),
